@@ -7,8 +7,56 @@ fn parse_i128(obs: &str) -> i128 {
     obs.split(' ').nth(1).and_then(|t| t.strip_prefix('X')).and_then(|s| s.parse().ok()).unwrap_or(0)
 }
 
+/// amounts of every width: 2^k + d around each limb boundary of an i128, paid / topped up by a spender who can afford them and
+/// by one who cannot, then paid out again by both payout routes — the amount taken, the amount announced and the amount that
+/// arrives are all the stated one
+fn wide_amounts(run: &mut Run) {
+    let gs = Addr::c(150);
+    let (owner, collector, admin) = (Addr::c(1), Addr::c(2), Addr::c(5));
+    let (whale, poor, sender, recv) = (Addr::c(13), Addr::c(14), Addr::c(30), Addr::c(20));
+    for (sc, token_kind) in ["sac", "itok"].iter().enumerate() {
+        run.scenario("gs", &format!("c14-wide-{token_kind}"));
+        run.op("time 1000 10", "time");
+        run.op(&format!("gs.new {} {} {}", gs.tok(), owner.tok(), collector.tok()), "construct");
+        let o = if sc == 0 { run.op(&format!("sac.new {}", admin.tok()), "env-token") } else { run.op(&format!("itok.new {} {}", Addr::c(210).tok(), admin.tok()), "env-token-interchain") };
+        let tok = match o.split(' ').nth(1) {
+            Some(a) => Addr::parse(a),
+            None => continue,
+        };
+        run.op(&format!("sac.mint {} {} {}", tok.tok(), whale.tok(), 1i128 << 110), "env-mint-whale");
+        run.op(&format!("sac.mint {} {} 1000", tok.tok(), poor.tok()), "env-mint");
+        let mut n = 0;
+        for k in [15u32, 16, 31, 32, 33, 47, 48, 62, 63, 64, 65, 95, 96, 97, 100] {
+            for d in [0i128, 1, 7] {
+                n += 1;
+                let amt = (1i128 << k) + d;
+                let cls = format!("2^{k}+{d}");
+                if n % 2 == 0 {
+                    run.op(&format!("gs.add_gas {} {} {} {} {} {}", sender.tok(), hx(b"msg-1"), whale.tok(), tok.tok(), amt, whale.tok()), &format!("add-wide-{cls}"));
+                    run.op(&format!("gs.add_gas {} {} {} {} {} {}", sender.tok(), hx(b"msg-1"), poor.tok(), tok.tok(), amt, poor.tok()), &format!("add-wide-unaffordable-{cls}"));
+                } else {
+                    run.op(&format!("gs.pay_gas {} {} {} {} {} {} {} {} {}", sender.tok(), hx(b"ethereum"), hx(b"0xdest"), hx(b"p"), whale.tok(), tok.tok(), amt, hx(b""), whale.tok()), &format!("pay-wide-{cls}"));
+                    run.op(&format!("gs.pay_gas {} {} {} {} {} {} {} {} *", sender.tok(), hx(b"ethereum"), hx(b"0xdest"), hx(b"p"), poor.tok(), tok.tok(), amt, hx(b"")), &format!("pay-wide-unaffordable-everyone-{cls}"));
+                }
+                for who in [&gs, &whale, &poor] {
+                    run.op(&format!("sac.balance {} {}", tok.tok(), who.tok()), "q");
+                }
+                if n % 3 == 0 {
+                    run.op(&format!("gs.collect_fees {} {} {} {}", recv.tok(), tok.tok(), amt, collector.tok()), &format!("collect-wide-{cls}"));
+                } else {
+                    run.op(&format!("gs.refund {} {} {} {} {}", hx(b"msg-7"), whale.tok(), tok.tok(), amt, collector.tok()), &format!("refund-wide-{cls}"));
+                }
+                for who in [&gs, &whale, &recv] {
+                    run.op(&format!("sac.balance {} {}", tok.tok(), who.tok()), "q");
+                }
+            }
+        }
+    }
+}
+
 pub fn gen_c14(run: &mut Run, seed: u64, thorough: bool) {
     let mut rng = Rng::new(seed);
+    wide_amounts(run);
     let histories = if thorough { 250 } else { 40 };
     let len = if thorough { 35 } else { 30 };
     let gs = Addr::c(150);
